@@ -492,6 +492,19 @@ pub fn dispatch(m: &mut Machine, name: &str, args: &[&str]) -> Option<R> {
                 Ok("-".into())
             })
         })(),
+        // minput_rep <slot> <chunk> <count>
+        "minput_rep" => (|| {
+            need(args, 3)?;
+            let s = arg_slot(args[0])?;
+            let d = arg_bytes(args[1])?;
+            let n = arg_usize(args[2])?;
+            with_mac(m, s, |h| {
+                for _ in 0..n {
+                    h.input(&d);
+                }
+                Ok("-".into())
+            })
+        })(),
         "mresult" => (|| {
             need(args, 1)?;
             let s = arg_slot(args[0])?;
